@@ -83,6 +83,17 @@ CLAIMED = {
         "note": "Trusted: the model in props/c13.py (transcribes the statement and `mlr join --help`). Left-file format overrides and prepipes are not covered.",
         "design_ref": "DESIGN.md section 4 C13",
     },
+    "C11": {
+        "level": "exploration",
+        "technique": "property-based testing: Hypothesis-generated streams x selecting-verb variants; universal 'only selects' oracle by id tracing plus per-verb slicing models and partition/complement laws",
+        "text": ("Generated heterogeneous streams (0-14 records, optional group field, number spellings, 13-field records, all-empty records) through "
+                 "40 variants of head/tail (k, -k, +k, -g), decimate (-b, -g), filter and filter -x (11 expression templates incl. absent operands), grep "
+                 "(-i -v -a), having-fields (6 modes), sample, bootstrap, shuffle (with --seed reproducibility), tac, group-by, group-like, uniq -a (-c), "
+                 "skip-trivial-records, nothing, cat -n -g / -N, multi-verb chains, at batch sizes 1/2/3/500: every output record is byte-identical to an input "
+                 "record; exact expected subsequence/permutation per verb; filter/-x partition; head k ++ tail +(k+1) = input; counts add up."),
+        "note": "Trusted: the slicing models in props/c11.py (from each verb's usage text). decimate -b's treatment of a trailing incomplete group is accepted either way (usage text silent).",
+        "design_ref": "DESIGN.md section 4 C11",
+    },
 }
 
 NOT_YET = "check not built yet in this session (see DESIGN.md section 8 build order); will be claimed when its sub-checks run"
